@@ -97,13 +97,14 @@ package jet
 //@   callsite (*Set).loadFromFile 0 requires [first-existing-extension-wins] {C16} lastret("(Loader).Exists", 0) && templatePath == caller.templatePath + s.extensions[caller.rangeindex + 1] && cacheAfterParsing == caller.cacheAfterParsing
 
 //@ func (*Set).loadFromFile
-//@   props C15 C16
+//@   props C15 C16 C03
 //@   requires SetOK(s) && Canon(templatePath)
 //@   modifies ghost CM, ghost NL
 //@   nopanic
 //@   ensures err == nil ==> template != nil && template.Name == templatePath
 //@   callsite (Loader).Open 0 requires [loader-paths-are-canonical] {C15} Canon(templatePath) && l == s.loader && templatePath == caller.templatePath
 //@   callsite (*Set).parse 0 requires [failed-open-or-read-parses-nothing] {C16} lastret("(Loader).Open", 1) == nil && lastret("ioutil.ReadAll", 1) == nil && name == caller.templatePath && cacheAfterParsing == caller.cacheAfterParsing
+//@   callsite (*Set).parse 0 requires [the-loaders-bytes-are-parsed-unmodified] {C03} text == string(lastret("ioutil.ReadAll", 0))
 //@   callsite (io.ReadCloser).Close count 1
 
 //@ func (*Set).parse
